@@ -122,6 +122,7 @@ func vLen(name string, max int) int {
 }
 
 func vIsEngine() bool           { return false }
+func vDump(label string, s string) {}
 func vLateSched()               {}
 func vRunPending()              { time.Sleep(20 * time.Millisecond) }
 func vSummarise(name string)    {}
